@@ -195,7 +195,7 @@ func (c *Ctx) errPropagatedSentinel(call ssa.CallInstruction) (bool, string) {
 		}
 		return (flowsTo(e, r.X, 0) && loadOfGlobal(r.Y) != nil) || (flowsTo(e, r.Y, 0) && loadOfGlobal(r.X) != nil)
 	}
-	qq := PathQuery{From: call.(ssa.Instruction), NonNil: map[ssa.Value]bool{e: true}, Cut: func(i ssa.Instruction) bool { return returnsErr(e, i) }, Goal: IsReturn, Prune: prune}
+	qq := PathQuery{From: call.(ssa.Instruction), NonNil: map[ssa.Value]bool{e: true}, GoalP: notReturning(e), Prune: prune}
 	if p := qq.Find(); p != nil {
 		return false, "a path from the call to the return at " + c.P.InstrPos(p[len(p)-1]) + " does not hand a non-nil error back (it is overwritten or skipped before it is tested)"
 	}
